@@ -20,7 +20,10 @@ LEVEL_NOTE = ("proof (partial): for all files and reply scripts the model of sen
               "lines while ACKed, one EOT iff all ACKed, stop-and-wait; stream I/O (asyncio streams, TCP) is scripted")
 ASSUMPTIONS = ["each reply arrives as one chunk of at most 100 bytes; the scripted reader is a byte stream (a read shorter than the chunk "
                "leaves the rest buffered); asyncio.open_connection is replaced by a double"]
-REPLIES = [b"\x06", b"\x15", b"\x04", b"garbage", b"\x06\x06", b"", b"\x06\x15", b"\x06garbage", b"\x15\x06"]
+REPLIES = [b"\x06", b"\x15", b"\x04", b"garbage", b"\x06\x06", b"", b"\x06\x15", b"\x06garbage", b"\x15\x06", b"<reset>"]
+
+
+RESET = b"<reset>"       # the peer aborts the connection instead of replying: read() raises ConnectionResetError
 
 
 class ScriptedPeer(object):
@@ -48,10 +51,52 @@ class ScriptedPeer(object):
             self.n += 1
             self.log.append(("R", i))
             self.buf = self.replies[i] if i < len(self.replies) else b""
+            if self.buf == RESET:
+                self.buf = b""
+                raise ConnectionResetError("connection reset by peer")
         else:
             self.log.append(("r",))          # served from bytes left over by an earlier, shorter read
         out, self.buf = self.buf[:n], self.buf[n:]
         return out
+
+
+def run_two(lines_a, replies_a, lines_b, replies_b):
+    """two files sent at the same time to the same server (what `simulator -i a b` does): returns the two traces"""
+    from senaite.astm import simulator
+    loop = impl.ensure_loop()
+    peers = [ScriptedPeer(replies_a), ScriptedPeer(replies_b)]
+    handed = []
+
+    async def fake_open(address, port, *a, **kw):
+        p = peers[len(handed)]
+        handed.append(p)
+        return p, p
+    # every read yields to the other transfer
+    for p in peers:
+        orig_read = p.read
+
+        async def read(n, _o=orig_read):
+            await asyncio.sleep(0)
+            return await _o(n)
+        p.read = read
+    orig = asyncio.open_connection
+    simulator.asyncio.open_connection = fake_open
+    raised = []
+    try:
+        async def both():
+            res = await asyncio.gather(simulator.send_message(list(lines_a), "127.0.0.1", 4010, delay=0),
+                                       simulator.send_message(list(lines_b), "127.0.0.1", 4010, delay=0),
+                                       return_exceptions=True)
+            return res
+        for x in loop.run_until_complete(both()):
+            raised.append(type(x).__name__ if isinstance(x, Exception) else None)
+    finally:
+        simulator.asyncio.open_connection = orig
+    out = []
+    for p in peers:
+        out.append(" ".join(("W" + hexb(e[1])) if e[0] == "W" else ("R%d" % e[1] if e[0] == "R" else "r")
+                            for e in p.log if e[0] in "WRr"))
+    return out, raised
 
 
 def run_sim(lines, replies):
@@ -97,6 +142,8 @@ def oracle(lines, replies, trace):
     while acked < len(payload) and rep(acked + 1) == b"\x06":
         acked += 1
     exp = ["W05"] + ["W" + hexb(l) for l in payload[:acked + 1]] + (["W04"] if acked == len(payload) else [])
+    if rep(0) == RESET:
+        exp = ["W05"]          # the connection broke down before anything but ENQ was sent
     if writes != exp:
         return "writes", "writes %s, expected %s" % (writes, exp)
     return None
@@ -142,15 +189,32 @@ def run(ctx):
         blanks = any(not l.strip(b"\r\n") for l in lines)
         refusal_mid = any(x != b"\x06" for x in replies[2:-1])
         s.case(case, nontrivial=blanks or refusal_mid)
-        if raised:
+        if raised and RESET not in replies:
             s.fail(dict(case, raised=raised), "send_message raised %s" % raised, "files/raises")
             continue
         bad = oracle(lines, replies, trace)
         if bad:
             s.fail(dict(case, trace=trace), bad[1], "files/" + bad[0])
-        if ml is not None and ml != "ok " + trace:
+        if ml is not None and ml != "ok " + trace and RESET not in replies:
             s.disagree(case, "ok " + trace, ml)
-    return [s]
+
+    # two files under way at the same time to the same server: each transfer is judged on its own
+    c2 = Stream("concurrent-transfers")
+    for _ in range(1500 if ctx.thorough else 200):
+        la, lb = gen_lines(r), gen_lines(r)
+        ra = [r.choice(REPLIES + [b"\x06"] * 8) for _ in range(8)]
+        rb = [b"\x06"] * 8 if r.random() < 0.6 else [r.choice(REPLIES + [b"\x06"] * 8) for _ in range(8)]
+        traces, raised = run_two(la, ra, lb, rb)
+        case = {"a": {"lines": [hexb(x) for x in la], "replies": [hexb(x) for x in ra]},
+                "b": {"lines": [hexb(x) for x in lb], "replies": [hexb(x) for x in rb]}}
+        c2.case(case, nontrivial=any(x != b"\x06" for x in ra[:len(la) + 1]))
+        for which, (ls, rs, tr) in (("a", (la, ra, traces[0])), ("b", (lb, rb, traces[1]))):
+            bad = oracle(ls, rs, tr)
+            if bad:
+                c2.fail(dict(case, transfer=which, trace=tr), "transfer %s while the other was under way: %s" % (which, bad[1]),
+                        "concurrent/" + bad[0])
+                break
+    return [s, c2]
 
 
 def search(ctx, disagreements):
